@@ -10,7 +10,8 @@ package main
 //   (A) the discovered targets reach the API; the explored targets (their real sample counts) reach the shard;
 //       a reload that removes a job removes its targets from the API at once; a reload that brings it back brings them back;
 //   (B) with --shard.max-head-series set, a shard whose reported head series leave no room gets nothing (the flag is honoured
-//       whatever its relation to --shard.max-process-series).
+//       whatever its relation to --shard.max-process-series);
+//   (C) with --shard.max-process-series=350, a shard that reports 200 process series gets exactly one of the targets of 100 samples.
 
 import (
 	"encoding/json"
@@ -217,6 +218,45 @@ func init() {
 				}
 			}
 		})
-		return bigVerdict("coordinatorbinary", *out, bad, "the coordinator binary discovers, explores, assigns, follows reloads at once and honours the head limit flag")
+		// ---- (C) the process limit flag: the shard reports 200 process series, every target has 100 samples, the limit is 350:
+		// exactly one target fits (200+100 < 350, 300+100 is not)
+		run(10, []string{"--shard.max-process-series=350", "--shard.max-shard=1"}, func(api string, sc *stubSidecar, cfgFile string) {
+			if !waitFor(20*time.Second, func() bool { a, err := active(api); return err == nil && has(a, "a1") && has(a, "a2") && has(a, "b1") }) {
+				bad = append(bad, "(process limit run) the API does not list the configured targets")
+				return
+			}
+			count := func(t string) int {
+				n := 0
+				for _, id := range []string{`"a1"`, `"a2"`, `"b1"`} {
+					if strings.Contains(t, id) {
+						n++
+					}
+				}
+				return n
+			}
+			placed := waitFor(20*time.Second, func() bool {
+				sc.mu.Lock()
+				defer sc.mu.Unlock()
+				for _, t := range sc.targets {
+					if count(t) >= 1 {
+						return true
+					}
+				}
+				return false
+			})
+			time.Sleep(3 * time.Second) // some more cycles with everything explored
+			sc.mu.Lock()
+			defer sc.mu.Unlock()
+			if !placed {
+				bad = append(bad, "--shard.max-process-series=350, the shard reports 200 process series, every target has 100 samples: 20 s after discovery no target has been placed on the shard although one fits")
+			}
+			for _, t := range sc.targets {
+				if count(t) > 1 {
+					bad = append(bad, fmt.Sprintf("--shard.max-process-series=350, the shard reports 200 process series, every target has 100 samples: %d targets were placed on it in one update (%.300s)", count(t), t))
+					break
+				}
+			}
+		})
+		return bigVerdict("coordinatorbinary", *out, bad, "the coordinator binary discovers, explores, assigns, follows reloads at once and honours the head and process limit flags")
 	}
 }
